@@ -87,6 +87,13 @@ def alt_table(atm, cells_dense, route, object_ids=False):
         t = b.Table(big, ['extra-o'] + list(atm.obs_ids), ['extra-s'] + list(atm.samp_ids), omd2, smd2, type=atm.type)
         t.filter(['extra-o'], axis='observation', invert=True, inplace=True)
         t = t.filter(lambda v, i, m: str(i) != 'extra-s', axis='sample', inplace=False)
+    elif route == 'relabelled-by-permutation':
+        # built under rotated names, then renamed into place: the new names are a permutation of the old ones
+        ro = list(atm.obs_ids)[1:] + list(atm.obs_ids)[:1]
+        rs = list(atm.samp_ids)[1:] + list(atm.samp_ids)[:1]
+        t = b.Table(csr_with(), ro, rs, omd, smd, type=atm.type)
+        t.update_ids(dict(zip(ro, atm.obs_ids)), axis='observation', inplace=True)
+        t = t.update_ids(dict(zip(rs, atm.samp_ids)), axis='sample', inplace=False)
     elif route == 'copy':
         t = b.Table(csr_with(), atm.obs_ids, atm.samp_ids, omd, smd, type=atm.type).copy()
     else:
@@ -95,7 +102,7 @@ def alt_table(atm, cells_dense, route, object_ids=False):
 
 
 ROUTES = ['csr-sorted', 'csr-reversed', 'explicit-zero', 'csc', 'coo', 'dense-array', 'triples', 'sort-then-inverse',
-          'filter-keeping-all', 'larger-then-filtered', 'copy']
+          'filter-keeping-all', 'larger-then-filtered', 'relabelled-by-permutation', 'copy']
 ACCESSORS = ['none', 'nnz', 'data-sample', 'data-observation', 'iter', 'eq-self', 'sum', 'density', 'tsv-absent-key']
 
 
@@ -370,7 +377,7 @@ META = {
     'encoded': {'biom/table.py': ['__eq__', '__ne__', 'descriptive_equality', '_data_equality', 'nnz', 'data', 'get_value_by_ids', 'copy',
                                   '__init__', '_to_sparse', 'nparray_to_sparse', 'list_list_to_sparse', 'sort_order', 'filter',
                                   'get_table_density', 'iter', 'sum']},
-    'bounds': {'quick': {'shapes': '2x2, <=1 explicit zero per table, 11 construction routes x 10 read-only-call pairs (none / nnz / data / TSV export naming an absent metadata category; one side untouched or the same call on both)'},
+    'bounds': {'quick': {'shapes': '2x2, <=1 explicit zero per table, 12 construction routes x 10 read-only-call pairs (none / nnz / data / TSV export naming an absent metadata category; one side untouched or the same call on both)'},
                'thorough': {'shapes': '2x2, 2x3, 3x2; all 9x9 pairs of read-only calls'}},
     'outside': ['NaN values', 'HDF5 export equality in the quick tier (thorough only; C04 proves the written content is a function of the content for every representation)'],
     'assumptions': ['scipy.sparse model of != / tocsr / eliminate_zeros'],
